@@ -602,7 +602,15 @@ def _analyze_cond_node(
         # $a == $b - check both operands for cmdsubs
         decisions = []
         decisions.extend(_analyze_cond_operand(node.left, config, cwd, remote=remote))
-        decisions.extend(_analyze_cond_operand(node.right, config, cwd, remote=remote))
+        decisions.extend(
+            _analyze_cond_operand(
+                node.right,
+                config,
+                cwd,
+                remote=remote,
+                regex=getattr(node, "op", None) == "=~",
+            )
+        )
         return decisions
     elif kind in ("cond-and", "cond-or"):
         # expr1 && expr2, expr1 || expr2 - recurse both sides
@@ -620,19 +628,21 @@ def _analyze_cond_node(
 
 
 def _analyze_cond_operand(
-    word, config: Config, cwd: Path, *, remote: bool = False
+    word, config: Config, cwd: Path, *, remote: bool = False, regex: bool = False
 ) -> list[Decision]:
-    """Analyze a [[ ]] operand: its parts and, always, its raw text.
+    """Analyze a [[ ]] operand: its parts and, where they are not the whole story, its raw text.
 
-    The text is what bash expands: -v 'a[$(cmd)]' evaluates the subscript even inside
-    quotes, and on the right of =~ the parser's tree of a substitution is not reliable
-    ($(echo a; rm x) comes back as one command), so the scanner re-reads it.
+    The text is re-read by the scanner when the operand has no parts, when it contains a
+    single quote (-v 'a[$(cmd)]' evaluates the subscript although it is quoted) and on the
+    right of =~, where the parser's tree of a substitution is not reliable
+    ($(echo a; rm x) comes back as the one command 'echo a; rm x').
     """
     decisions: list[Decision] = []
-    if getattr(word, "parts", None):
+    parts = getattr(word, "parts", None)
+    if parts:
         decisions.extend(_analyze_word_parts(word, config, cwd, remote=remote))
     value = getattr(word, "value", None)
-    if value and isinstance(value, str):
+    if value and isinstance(value, str) and (not parts or regex or "'" in value):
         decisions.extend(
             _analyze_string_cmdsubs(value, config, cwd, remote=remote, procsub=True)
         )
